@@ -345,3 +345,14 @@ def assemble(pieces):
         else:
             out.append(p)
     return FmtV(out)
+
+
+def inner_ref(r):
+    """innermost reference of a chain `&mut &mut T` (what a mutating std method finally writes through)"""
+    while type(r) is Ref:
+        v = r.load()
+        if type(v) is Ref:
+            r = v
+        else:
+            break
+    return r
